@@ -7,6 +7,8 @@ package main
 //                                                           -> concat_stream, restore_stream
 //   compose/checkpoint.go      convert, restore (what happens to ONE entry of Inputs / of a channel's Values)
 //                                                           -> convert_entry, restore_entry
+//                              streamConverter.convertInputs / restoreInputs / convertOutputs / restoreOutputs: every path
+//                              reaches convert / restore with the run's isStream      -> wrappers_reach_entry
 //
 // An entry is an `any`: in the model a value of the sum type dyn (Model/CheckpointStreamLib.v): plain nil, the
 // marker nilChunk{}, a non-nil value, or a stream (the list of its chunks; a chunk of an interface chunk type may
@@ -44,7 +46,8 @@ func init() {
 		"  Definition concat_stream (items : list (option V)) : res (dyn V) := m_concat_stream V concat_items items.\n"+
 		"  Definition restore_stream (a : dyn V) : res (list (option V)) := m_restore_stream V a.\n"+
 		"  Definition convert_entry (isStream : bool) (v : dyn V) : res (dyn V) := m_convert_entry V concat_items isStream v.\n"+
-		"  Definition restore_entry (isStream : bool) (v : dyn V) : res (dyn V) := m_restore_entry V isStream v.\nEnd Gen.\n")
+		"  Definition restore_entry (isStream : bool) (v : dyn V) : res (dyn V) := m_restore_entry V isStream v.\nEnd Gen.\n\n"+
+		"Definition wrappers_reach_entry : bool * bool * bool * bool := (true, true, true, true).\n")
 }
 
 func c05sErr(where, format string, a ...any) error {
@@ -691,6 +694,69 @@ func c05sEntryFunc(f *ast.File, name, pairCall string) (string, error) {
 	return fmt.Sprintf("if negb isStream then %s\n    else %s", nonStream, stream), nil
 }
 
+// ---------------------------------------------------------------- the wrappers of streamConverter
+
+// c05sWrapper: the method streamConverter.<name>(…, isStream bool, …, values map[string]any, …). true = every `return` of
+// its body returns the call `<entry>(values, <pairs>, isStream)` (which pairs: decides the chunk type only, skipped);
+// false = some path returns nil without having called <entry> (the entries of that path are not converted / restored).
+// Any other return, or an assignment to values / isStream: source shape not recognised.
+func c05sWrapper(f *ast.File, name, entry string) (bool, error) {
+	fn := c05MethodOf(f, "streamConverter", name)
+	if fn == nil || fn.Body == nil {
+		return false, c05sErr(name, "not found")
+	}
+	values, hasStream := "", false
+	for _, p := range fn.Type.Params.List {
+		for _, n := range p.Names {
+			if n.Name == "isStream" {
+				hasStream = true
+			}
+			if _, isMap := p.Type.(*ast.MapType); isMap && c05Squash(types.ExprString(p.Type)) == "map[string]any" {
+				values = n.Name
+			}
+		}
+	}
+	if values == "" || !hasStream {
+		return false, c05sErr(name, "no isStream / values parameter")
+	}
+	reaches, nret := true, 0
+	var bad error
+	ast.Inspect(fn.Body, func(n ast.Node) bool {
+		switch x := n.(type) {
+		case *ast.FuncLit:
+			return false
+		case *ast.AssignStmt:
+			for _, l := range x.Lhs {
+				if id := c05Ident(l); id == values || id == "isStream" {
+					bad = c05sErr(name, "assignment to %s", id)
+				}
+			}
+		case *ast.ReturnStmt:
+			nret++
+			if len(x.Results) != 1 {
+				bad = c05sErr(name, "return with %d results", len(x.Results))
+				return true
+			}
+			if c05IsNil(x.Results[0]) {
+				reaches = false
+				return true
+			}
+			call, ok := x.Results[0].(*ast.CallExpr)
+			if !ok || c05Ident(call.Fun) != entry || len(call.Args) != 3 || c05Ident(call.Args[0]) != values || c05Ident(call.Args[2]) != "isStream" {
+				bad = c05sErr(name, "return of something else than %s(%s, _, isStream)", entry, values)
+			}
+		}
+		return true
+	})
+	if bad != nil {
+		return false, bad
+	}
+	if nret == 0 || !c05AlwaysReturns(fn.Body.List) {
+		return false, c05sErr(name, "a path without return")
+	}
+	return reaches, nil
+}
+
 // ---------------------------------------------------------------- the extractor
 
 func c05sExtract(repo string) (string, string, error) {
@@ -723,6 +789,14 @@ func c05sExtract(repo string) (string, string, error) {
 	if err != nil {
 		return "", "", err
 	}
+	var wr []string
+	for _, w := range [][2]string{{"convertInputs", "convert"}, {"restoreInputs", "restore"}, {"convertOutputs", "convert"}, {"restoreOutputs", "restore"}} {
+		ok, err := c05sWrapper(cpF, w[0], w[1])
+		if err != nil {
+			return "", "", err
+		}
+		wr = append(wr, strconv.FormatBool(ok))
+	}
 	var b strings.Builder
 	b.WriteString("(* Gen/CheckpointStream.v — GENERATED by tools/go2v (extractor \"cpstream\") from compose/stream_concat.go\n")
 	b.WriteString("   (concatStreamReader), generic_helper.go (defaultStreamConvertPair) and checkpoint.go (convert, restore).\n   Do not edit. *)\n")
@@ -734,6 +808,9 @@ func c05sExtract(repo string) (string, string, error) {
 	fmt.Fprintf(&b, "  Definition restore_stream (a : dyn V) : res (list (option V)) :=\n    %s.\n\n", rst)
 	fmt.Fprintf(&b, "  Definition convert_entry (isStream : bool) (v : dyn V) : res (dyn V) :=\n    %s.\n\n", ce)
 	fmt.Fprintf(&b, "  Definition restore_entry (isStream : bool) (v : dyn V) : res (dyn V) :=\n    %s.\n", re)
-	b.WriteString("End Gen.\n")
+	b.WriteString("End Gen.\n\n")
+	b.WriteString("(* convertInputs, restoreInputs, convertOutputs, restoreOutputs of streamConverter: does EVERY path of the wrapper hand\n" +
+		"   the entries, with the run's own isStream, to convert / restore (pending inputs and channel values alike)? *)\n")
+	fmt.Fprintf(&b, "Definition wrappers_reach_entry : bool * bool * bool * bool := (%s).\n", strings.Join(wr, ", "))
 	return "CheckpointStream.v", b.String(), nil
 }
